@@ -22,13 +22,15 @@ theorem good0_waitRoom {cap : Cap} {L : Bool} (p : Pool) (m) (hg : Good0 cap L p
   have facts : (p.waitRoom m).sem.value = p.sem.value ∧ grantsL (p.waitRoom m).sem.waiters = grantsL p.sem.waiters ∧
       (p.waitRoom m).tasks = p.tasks ∧ (p.waitRoom m).running = p.running ∧ (p.waitRoom m).cancelledR = p.cancelledR ∧
       (p.waitRoom m).ended = p.ended ∧ (p.waitRoom m).lost = p.lost ∧ (p.waitRoom m).groups = p.groups ∧
-      (p.waitRoom m).apis = p.apis := by
+      (p.waitRoom m).apis = p.apis ∧ (p.waitRoom m).gathers = p.gathers := by
     unfold waitRoom
     simp only
     split <;> simp_all [grantsL, List.countP_append, schedMeta, emitRef, modReq]
-  obtain ⟨f1, f2, f3, f4, f5, f6, f7, f8, f9⟩ := facts
+  obtain ⟨f1, f2, f3, f4, f5, f6, f7, f8, f9, f10⟩ := facts
   refine ⟨?_, fun i tk h hn => hg.phase i tk (by rw [← f3]; exact h) hn, hg.reg.of_eq f3 f4 f5 f6 f7,
-    hg.grp.of_eq f8 (by rw [f3]), hg.life.of_eq f3 f7, (hg.strict.of_eq f7 f9).1, (hg.strict.of_eq f7 f9).2⟩
+    hg.grp.of_eq f8 (by rw [f3]), hg.life.of_eq f3 f7,
+    hg.fl.frame f10 f9 (fun t ⟨tk, a, b⟩ => ⟨tk, by rw [f3]; exact a, b⟩),
+    (hg.strict.of_eq f7 f9).1, (hg.strict.of_eq f7 f9).2⟩
   cases cap with
   | fin n =>
     obtain ⟨v, hv, hs⟩ := hg.slot
@@ -123,11 +125,15 @@ theorem _root_.Taskpool.GroupsOK.create {p : Pool} (hr : GroupsOK p) (g : String
 
 /-- appending a fresh task in phase `created` -/
 theorem good0_createTask_afterTake {cap : Cap} {L : Bool} (p : Pool) (m : Nat) (isMap : Bool)
-    (hph : PhaseOK p) (hreg : RegOK p) (hgrp : GroupsOK p) (hlife : LifeOK p) (hpre : SlotPre cap p) (hst : Strict L p) :
+    (hph : PhaseOK p) (hreg : RegOK p) (hgrp : GroupsOK p) (hlife : LifeOK p) (hpre : SlotPre cap p) (hst : Strict L p)
+    (hfl : FlushOK p) :
     Good0 cap L (p.createTask m isMap) := by
   unfold createTask
   simp only
-  refine ⟨?_, ?_, hreg.create _ rfl _ rfl rfl rfl rfl rfl, hgrp.create _ _ _ rfl rfl, ?_, hst.1, hst.2⟩
+  refine ⟨?_, ?_, hreg.create _ rfl _ rfl rfl rfl rfl rfl, hgrp.create _ _ _ rfl rfl, ?_,
+    hfl.frame rfl rfl (fun t ⟨tk, a, b⟩ => ⟨tk, by
+      show (p.tasks ++ _)[t]? = some tk
+      rw [List.getElem?_append_left (List.getElem?_eq_some_iff.mp a).1]; exact a, b⟩), hst.1, hst.2⟩
   rotate_left 2
   · intro i tk' h
     simp only [emitRef_tasks, modReq_tasks] at h
@@ -220,7 +226,8 @@ theorem good_takeSlotAndCreate {cap : Cap} {L : Bool} (p : Pool) (m : Nat) (isMa
     (hl : p.sem.locked = false) : Good cap L (p.takeSlotAndCreate m isMap) := by
   unfold takeSlotAndCreate
   refine ⟨good0_createTask_afterTake _ m isMap (fun i tk h hn => hg.phase i tk h hn)
-    (hg.reg.of_eq rfl rfl rfl rfl rfl) (hg.grp.of_eq rfl rfl) (hg.life.of_eq rfl rfl) ?_ hg.strict,
+    (hg.reg.of_eq rfl rfl rfl rfl rfl) (hg.grp.of_eq rfl rfl) (hg.life.of_eq rfl rfl) ?_ hg.strict
+    (hg.fl.frame rfl rfl (fun _ h => h)),
     mapOK_createTask isMap (hmap.of_eq rfl rfl) hlt⟩
   cases cap with
   | fin n =>
